@@ -1069,3 +1069,90 @@ func genMover(r *rand.Rand, readers int, moves int) vh.Case {
 		Desc: map[string]interface{}{"kind": "one writer moving an entry with Update, concurrent readers", "fixed": itemsStr(fixed),
 			"moving": fmt.Sprintf("%d <-> %d", mv.k, mv2.k), "moves": 2 * moves, "readers": readers, "update_false": falses, "distinct_observations": ds}}
 }
+
+// ---------------------------------------------------------------- big wrapper trees, given compactly
+
+func gcd(a, b int) int {
+	for b != 0 {
+		a, b = b, a%b
+	}
+	return a
+}
+
+// summary of a scan result: length, first three, last three, checksum (C03_Check.summ)
+func summCoq(l []kv) (string, string) {
+	ck := int64(0)
+	for _, x := range l {
+		ck = (ck*1000003 + int64(x.k)*7 + int64(x.p)) % 2147483647
+	}
+	first := l
+	if len(first) > 3 {
+		first = first[:3]
+	}
+	last := l
+	if len(last) > 3 {
+		last = last[len(last)-3:]
+	}
+	return fmt.Sprintf("(%d, %s, %s, %d)", len(l), coqItems(first), coqItems(last), ck),
+		fmt.Sprintf("len=%d first=%s last=%s checksum=%d", len(l), itemsStr(first), itemsStr(last), ck)
+}
+
+// count keys start + step*i are inserted in the order i = (j*stride) mod count; then the four scans with limits
+// around the sizes at which an implementation might cap its result (1023, 1024, 1025, 2000, len-1, len, len+1, 2^20)
+func genBig(r *rand.Rand, lo, hi int) vh.Case {
+	t := tree.NewBTree()
+	count := lo + r.Intn(hi-lo+1)
+	start := r.Intn(20)
+	step := 1 + r.Intn(3)
+	stride := 1
+	switch r.Intn(3) {
+	case 1:
+		stride = count - 1
+	case 2:
+		for stride = 2 + r.Intn(count-2); gcd(stride, count) != 1; stride++ {
+		}
+	}
+	for j := 0; j < count; j++ {
+		k := start + step*((j*stride)%count)
+		t.Insert(kv{k, k + 7})
+	}
+	lo0, hi0 := start-1, start+step*(count-1)+1
+	limits := []int{1023, 1024, 1025, 2000, count - 1, count, count + 1, 1 << 20}
+	steps := []string{}
+	descs := []string{}
+	scan := func(w, p int, f filt, n int) {
+		o := wop{kind: "scan", w: w, k: p, f: f, n: n}
+		res := applyW(t, o)
+		if res.kind != "list" {
+			// a panic here is a divergence of its own: an empty summary with an impossible length
+			steps = append(steps, fmt.Sprintf("(%s, %s, %s, %s, ((-1), [], [], 0))", wscanNames[w], z(p), f.coq(), z(n)))
+			descs = append(descs, o.String()+" = "+res.String())
+			return
+		}
+		sc, ss := summCoq(res.list)
+		steps = append(steps, fmt.Sprintf("(%s, %s, %s, %s, %s)", wscanNames[w], z(p), f.coq(), z(n), sc))
+		descs = append(descs, o.String()+" : "+ss)
+	}
+	sparse := filt{kind: "key", m: 2 + r.Intn(2), r: 0}
+	for w := 0; w < 4; w++ {
+		full := lo0
+		if w >= 2 {
+			full = hi0
+		}
+		perm := []int{0, 1, 2, 4, 5, 6}
+		r.Shuffle(len(perm), func(i, j int) { perm[i], perm[j] = perm[j], perm[i] })
+		// always one limit above the size a result might be capped at, and the unbounded one
+		scan(w, full, filt{kind: "all"}, limits[7])
+		scan(w, full, filt{kind: "all"}, limits[perm[0]])
+		scan(w, full, sparse, limits[perm[3]])
+		if hi > 1500 {
+			continue
+		}
+		scan(w, full, filt{kind: "all"}, limits[3])
+		scan(w, full, filt{kind: "all"}, limits[perm[1]])
+		scan(w, full, filt{kind: "all"}, limits[perm[2]])
+		scan(w, start+step*r.Intn(count/4), filt{kind: "all"}, limits[perm[4]])
+	}
+	return vh.Case{Coq: fmt.Sprintf("(CaseB %d %d %d %d [%s])%%Z", start, step, count, stride, strings.Join(steps, ";\n ")), Nontrivial: true,
+		Desc: map[string]interface{}{"kind": "big wrapper tree", "keys": fmt.Sprintf("%d + %d*i, i = (j*%d) mod %d, j = 0..%d, payload = key+7", start, step, stride, count, count-1), "scans": descs}}
+}
